@@ -959,7 +959,7 @@ class Parser:
         """Parse a string."""
         import io
 
-        tok_stream = generate_tokens(io.StringIO(source).readline)
+        tok_stream = generate_tokens(io.StringIO(source, newline=None).readline)
         tokenizer = Tokenizer(tok_stream, verbose=verbose)
         parser = cls(tokenizer, verbose=verbose, py_version=py_version)
         return parser.parse(mode if mode == "eval" else "file")
